@@ -127,7 +127,31 @@ def gen_function(rng, pg, name):
 
     body, res = expr(rng.choice([1, 2, 2, 3]))
     forcing = []
+    self_ref = None
+    rels = [(p, how[1], how[2]) for p, s, how in params if isinstance(how, tuple) and how[2] in (2, -1)]
+    if rels and rng.random() < 0.5:
+        # a bare parameter equated (through +, - or the branches of a conditional) with a product/quotient that contains
+        # the same parameter: the solver meets an equation `A ~ A^k × rest`. The sum itself forces the relation
+        # between the two parameters, so no separate forcing term is added for it.
+        p, q, k = rng.choice(rels)
+        other = f"({p} / {q})" if k == 2 else f"({p} * {q} * {q})"
+        qs = dict((n, sy) for n, sy, _ in params)[q]
+        shape = rng.randrange(5)
+        if shape == 0:
+            sr = f"({q} + {other})"
+        elif shape == 1:
+            sr = f"({other} - {q})"
+        elif shape == 2:
+            sr = f"(if {q} > {q} * 2 then {q} else {other})"
+        elif shape == 3:
+            sr = f"({q} + {q} * 2 + {other} * 3)"
+        else:
+            sr = f"hypot2({q}, {other})"
+        body, res = f"({sr} * {body})", qs.mul(res)
+        self_ref = p
     for p, s, how in params:
+        if p == self_ref:
+            continue
         if how == "concrete":
             lit = pg.literal(s.d).text
             forcing.append(f"(({p} / {lit}) - ({p} / {lit}))")
